@@ -876,17 +876,52 @@ def coq_ops(sess, view):
 
 
 NUM_N = {-2: -3, -3: -2}     # script -2 = NC_PUT_REQ_ALL (= -3 in pnetcdf.h), script -3 = NC_GET_REQ_ALL (= -2)
+# ---------------------------------------------------------------- which extract_reqs / req_commit is in the sources as built?
+_V_SC = (r'if\(ncp->num%sReqs==0&&num_reqs==ncp->numLead%sReqs\)\{', 
+         r'for\(i=0;i<num_reqs&&i<ncp->numLead%sReqs;i\+\+\)if\(req_ids\[i\]!=ncp->%s_lead_list\[i\]\.id\)break;'
+         r'if\(ncp->num%sReqs==0&&num_reqs==ncp->numLead%sReqs&&i==num_reqs\)\{')
+_V_SC3 = r'if\(num_reqs==ncp->numLeadPutReqs\+ncp->numLeadGetReqs&&statuses==NULL\)\{'
+_V_ERR_OLD = r'if\(status!=NC_NOERR\)returnstatus;if\(\*num_w_reqs\)'
+_V_ERR_NEW = (r'if\(status!=NC_NOERR\)\{for\(j=0;j<ncp->numLeadPutReqs;j\+\+\)\{fClr\(ncp->put_lead_list\[j\]\.flag,NC_REQ_TO_FREE\);'
+              r'ncp->put_lead_list\[j\]\.status=NULL;\}for\(j=0;j<ncp->numLeadGetReqs;j\+\+\)\{fClr\(ncp->get_lead_list\[j\]\.flag,NC_REQ_TO_FREE\);'
+              r'ncp->get_lead_list\[j\]\.status=NULL;\}returnstatus;\}if\(\*num_w_reqs\)')
+_V_LOOP = r'newnumrecs=ncp->numrecs;for\(i=0;i<ncp->numLeadPutReqs;i\+\+\)\{if\(!IS_RECVAR'
+
+
+def detect_variant(lib):
+    """the model carries two variants of extract_reqs (Nonblocking.v, argument fx).  Returns ('old'|'fixed', note) or
+    (None, reason) when the source has neither shape (then nothing is claimed: fail closed)"""
+    path = os.path.join(lib, 'gen', 'src', 'drivers', 'ncmpio', 'ncmpio_wait.c')
+    try:
+        txt = open(path).read()
+    except OSError:
+        return None, 'cannot read ' + path
+    txt = re.sub(r'/\*.*?\*/', '', txt, flags=re.S)
+    txt = re.sub(r'\s+', '', txt)
+    if len(re.findall(_V_LOOP, txt)) != 1:
+        return None, 'newnumrecs loop of req_commit is not `for (i=0; i<ncp->numLeadPutReqs; i++)` (the model has only that form)'
+    old = [len(re.findall(_V_SC[0] % ('Get', 'Put'), txt)), len(re.findall(_V_SC[0] % ('Put', 'Get'), txt)),
+           len(re.findall(_V_SC3, txt)), len(re.findall(_V_ERR_OLD, txt))]
+    new = [len(re.findall(_V_SC[1] % ('Put', 'put', 'Get', 'Put'), txt)), len(re.findall(_V_SC[1] % ('Get', 'get', 'Put', 'Get'), txt)),
+           len(re.findall(_V_SC3, txt)), len(re.findall(_V_ERR_NEW, txt))]
+    if old == [1, 1, 1, 1] and new[0] == 0 and new[1] == 0 and new[3] == 0:
+        return 'old', 'shortcuts of extract_reqs by request COUNT, third shortcut present, error return leaves NC_REQ_TO_FREE set'
+    if new == [1, 1, 0, 1] and old[0] == 0 and old[1] == 0 and old[3] == 0:
+        return 'fixed', 'shortcuts of extract_reqs guarded by the in-order id test, third shortcut removed, error return clears the marks'
+    return None, 'extract_reqs has neither the snapshot shape nor the shape of patches/F3_poison.diff (old-shape matches %s, new-shape matches %s)' % (old, new)
+
+
 HINT = {'auto': 'SwapAuto', 'enable': 'SwapOn', 'disable': 'SwapOff'}
 
 
-def run_model(cases, workdir, tag, timeout=600):
+def run_model(cases, workdir, tag, timeout=600, variant='old'):
     """cases: list of (name, np, hint, fmt, coq ops term).  One coqc; returns {name: rows} (rows = list of int lists)
     or raises C.BuildFailure"""
     src = ['From Pnc Require Import NbRun.', 'Local Open Scope Z_scope.', 'Set Printing Width 1000000.',
            'Set Printing Depth 100000000.']
     for i, (name, np_, hint, fmt, lo, hi, term) in enumerate(cases):
         src.append('Definition ops_%d : list op :=\n  %s.' % (i, term))
-        src.append('Eval vm_compute in (%d, run (init_world %d %s %d %d) ops_%d).' % (i, np_, HINT[hint], fmt, lo, i))
+        src.append('Eval vm_compute in (%d, run (init_world %s %d %s %d %d) ops_%d).' % (i, 'true' if variant == 'fixed' else 'false', np_, HINT[hint], fmt, lo, i))
     d = os.path.join(workdir, tag)
     os.makedirs(d, exist_ok=True)
     p = os.path.join(d, 'cases.v')
